@@ -33,7 +33,9 @@ pub enum Op {
     CreateSub { parent: usize, initial: u8, init_locale: usize, sig: usize, cookie_name: Option<String>, via: u8, in_region: bool },
     NewSignal { l: usize },
     Scope { view: usize, which: usize },
-    Set { view: usize, l: usize },
+    /// `in_observer`: the call is made while a reactive observer is running (inside a `RenderEffect` body), as a
+    /// router's path effect or a derived-state effect would
+    Set { view: usize, l: usize, in_observer: bool },
     SetUntracked { view: usize, l: usize },
     WriteWired { sig: usize, l: usize },
     MakeReader { view: usize, which: usize },
@@ -55,7 +57,7 @@ impl Op {
             Op::CreateSub { parent, initial, init_locale, sig, cookie_name, via, in_region } => json!({"op": "create_sub", "parent": parent, "initial": match initial { 0 => "none", 1 => "const", _ => "wired" }, "init_locale": LOCS[*init_locale % LOCS.len()], "sig": sig, "cookie_name": cookie_name, "via": match via { 0 => "init", 1 => "deprecated_provide", _ => "island_fn" }, "in_region": in_region}),
             Op::NewSignal { l } => json!({"op": "new_signal", "l": LOCS[*l % LOCS.len()]}),
             Op::Scope { view, which } => json!({"op": "scope", "view": view, "which": which}),
-            Op::Set { view, l } => json!({"op": "set", "view": view, "l": LOCS[*l % LOCS.len()]}),
+            Op::Set { view, l, in_observer } => json!({"op": "set", "view": view, "l": LOCS[*l % LOCS.len()], "in_observer": in_observer}),
             Op::SetUntracked { view, l } => json!({"op": "set_untracked", "view": view, "l": LOCS[*l % LOCS.len()]}),
             Op::WriteWired { sig, l } => json!({"op": "write_wired", "sig": sig, "l": LOCS[*l % LOCS.len()]}),
             Op::MakeReader { view, which } => json!({"op": "make_reader", "view": view, "which": which}),
@@ -78,7 +80,7 @@ impl Op {
             "create_sub" => Op::CreateSub { parent: u("parent"), initial: match v["initial"].as_str()? { "none" => 0, "const" => 1, _ => 2 }, init_locale: l("init_locale"), sig: u("sig"), cookie_name: name("cookie_name"), via: match v["via"].as_str() { Some("deprecated_provide") => 1, Some("island_fn") => 2, _ => 0 }, in_region: v["in_region"].as_bool().unwrap_or(false) },
             "new_signal" => Op::NewSignal { l: l("l") },
             "scope" => Op::Scope { view: u("view"), which: u("which") },
-            "set" => Op::Set { view: u("view"), l: l("l") },
+            "set" => Op::Set { view: u("view"), l: l("l"), in_observer: v["in_observer"].as_bool().unwrap_or(false) },
             "set_untracked" => Op::SetUntracked { view: u("view"), l: l("l") },
             "write_wired" => Op::WriteWired { sig: u("sig"), l: l("l") },
             "make_reader" => Op::MakeReader { view: u("view"), which: u("which") },
@@ -146,11 +148,13 @@ const ACCEPT_POOL: &[&str] = &[
     "*", "es,*;q=0.1", "zz-ZZ,pt-BR;q=0.8", "en-US,en;q=0.9", "fr-FR", "not a language,de", ";q=1,fr", "de;q=0.9;x=y",
     "pt-br", "zh", "zh-Hant", "zh-Hant-TW", "zh-Hant-HK,zh;q=0.8", "zh-CN", "zh-Hans-CN,en;q=0.5", "es,zh-Hant-TW;q=0.7", "fr-CA-x-private", "ar", "ar-EG,en;q=0.5", "he,ar;q=0.3",
     "es-ES,es,pt-PT,pt,it,nl,sv,da,pl,cs,fr-FR,fr,en", "es,it,nl,sv,da,pl,cs,fi,nb,hu,ro,de-AT;q=0.1",
+    "de-1996,fr", "de-CH-1901", "ca-ES-valencia,fr", "fr-CA-fonipa", "zh-Hant-TW-x-private,de",
 ];
 const ACCEPT_POOL_OWS: &[&str] = &["es, fr", "fr-CA, fr;q=0.9, en;q=0.8", "it , de", "es,\tpt-BR"];
 // "pt-BR" is the canonical spelling of the configured `pt-br`: not a configured locale name
 const COOKIE_VALUES: &[&str] = &["en", "fr", "fr-CA", "de", "pt-br", "zh", "zh-Hant", "ar", "pt-BR", "zh-hant", " fr", "de ", "xx", "", "fr_CA", "en-", "french", "e", "1"];
-const COOKIE_NAMES: &[&str] = &["sub_locale", "other_pref", "i18n_pref_locale2"];
+// (the default name too: a sub-context or a `resolve_locale` call may be told to use the main context's cookie)
+const COOKIE_NAMES: &[&str] = &["sub_locale", "other_pref", "i18n_pref_locale2", "i18n_pref_locale"];
 
 pub fn generate(rng: &mut Rng, ows: bool) -> Plan {
     let mut jar = BTreeMap::new();
@@ -202,7 +206,7 @@ pub fn generate(rng: &mut Rng, ows: bool) -> Plan {
                 },
                 1 => Op::NewSignal { l: rng.below(LOCS.len()) },
                 2 => Op::Scope { view: rng.below(8), which: rng.below(8) },
-                3 | 4 => Op::Set { view: rng.below(8), l: rng.below(LOCS.len()) },
+                3 | 4 => Op::Set { view: rng.below(8), l: rng.below(LOCS.len()), in_observer: rng.chance(1, 5) },
                 5 => Op::SetUntracked { view: rng.below(8), l: rng.below(LOCS.len()) },
                 6 => Op::WriteWired { sig: rng.below(3), l: rng.below(LOCS.len()) },
                 7 => Op::MakeReader { view: rng.below(8), which: rng.below(16) },
@@ -755,12 +759,29 @@ pub fn execute(plan: &Plan, rng: &mut Rng) -> Outcome {
                     }
                     _ => executed = false,
                 },
-                Op::Set { view, l } | Op::SetUntracked { view, l } => match pick_mod(&page.live_views(), *view) {
+                Op::Set { view, l, .. } | Op::SetUntracked { view, l } => match pick_mod(&page.live_views(), *view) {
                     Some(v) => {
                         let tracked = matches!(op, Op::Set { .. });
+                        let in_observer = EFFECTS && matches!(op, Op::Set { in_observer: true, .. });
                         let l = *l % LOCS.len();
                         let c = page.views[v].ctx;
-                        let r = guarded(|| if tracked { (page.views[v].h.set)(loc(l)) } else { (page.views[v].h.set_untracked)(loc(l)) });
+                        let mut kept: Option<Box<dyn std::any::Any>> = None;
+                        let r = guarded(|| {
+                            if in_observer {
+                                // the body runs at once (and never again: it reads nothing), with itself as the current observer
+                                let set = page.views[v].h.set.clone();
+                                let owner = page.ctxs[c].owner.clone();
+                                owner.with(|| kept = Some(Box::new(RenderEffect::new(move |_| set(loc(l))))));
+                            } else if tracked {
+                                (page.views[v].h.set)(loc(l))
+                            } else {
+                                (page.views[v].h.set_untracked)(loc(l))
+                            }
+                        });
+                        if let Some(k) = kept {
+                            page.keep.push(k);
+                            stats.probe("set_inside_an_observer");
+                        }
                         if let Err(msg) = r {
                             violations.push(Violation { property: "C16", invariant: "no_panic", signature: "set_locale panicked on a live context".into(), detail: msg });
                         }
